@@ -535,7 +535,7 @@ pub fn start_watchdog_mode(property: &str, verif_dir: &str, max_secs: u64, max_b
         if let Some((i, why)) = culprit {
             let desc = WATCH_DESC[i].lock().map(|v| v.clone()).unwrap_or_default();
             if !hang_is_violation {
-                eprintln!("MACHINERY: {why}: a call into the code under test did not return within {max_secs} s of wall-clock time (no verdict for {property}; termination is the subject of C02/C05/C06/C10)\ncase: {desc}");
+                eprintln!("MACHINERY: {why}: a call into the code under test did not return within {max_secs} s of wall-clock time (no verdict for {property}; termination is the subject of C02/C04/C05/C06/C10/C11)\ncase: {desc}");
                 std::process::exit(EXIT_MACHINERY);
             }
             let key = format!("watchdog/{desc}");
